@@ -193,6 +193,86 @@ func faultPositions(r *prng.R, ep string, t tree, items []item) []string {
 	return fs
 }
 
+// histories: several requests on ONE engine. Every request must be handled from its own payload
+// only: what an earlier request carried (rejected at parse, or applied and then replaced through
+// the other endpoint) must not leak into a later one.
+func genHistory(r *prng.R, t tree, kind int) []string {
+	eps := []string{"configuration", "apply_flows"}
+	put := func(ep, body string, items []item) string {
+		seen := map[string]bool{}
+		var uniq []item
+		for _, it := range items {
+			if !seen[it.logical] {
+				seen[it.logical] = true
+				uniq = append(uniq, it)
+			}
+		}
+		items = uniq
+		sortItems(items)
+		return putLine(ep, "PUT", body, items, "none", r.Chance(30), prng.Pick(r, []string{"g,um", "um,g"}))
+	}
+	flow := func() item {
+		return item{"f/" + prng.Pick(r, []string{"a", "b", "c"}) + ".yaml", fmt.Sprintf("v%d", r.Range(1, 3))}
+	}
+	small := func() []item {
+		switch r.Intn(4) {
+		case 0:
+			return []item{{"g", fmt.Sprintf("g%d", r.Range(1, 2))}}
+		case 1:
+			return []item{{"um", fmt.Sprintf("m%d", r.Range(1, 2))}}
+		case 2:
+			return []item{{"p/pa.yaml", fmt.Sprintf("p%d", r.Range(1, 2))}}
+		}
+		return []item{{"q/qb.yaml", fmt.Sprintf("q%d", r.Range(1, 2))}}
+	}
+	var puts []string
+	switch kind {
+	case 0:
+		// rejected at parse (the bad value sits in a LATER field than the flows), then a valid push
+		// that does not mention the flows at all
+		bad := prng.Pick(r, []item{{"g", "@"}, {"um", "@"}, {"q/qa.yaml", "@"}, {"p/pa.yaml", "@"}})
+		ep := prng.Pick(r, eps)
+		puts = append(puts, put(ep, "items", []item{flow(), flow2(r), bad}))
+		fix := []item{{bad.logical, map[string]string{"g": "g2", "um": "m2", "q/qa.yaml": "q2", "p/pa.yaml": "p2"}[bad.logical]}}
+		puts = append(puts, put(ep, "items", fix))
+		if r.Chance(50) {
+			puts = append(puts, put(prng.Pick(r, eps), "items", small()))
+		}
+	case 1:
+		// add through /configuration, replace through /apply_flows, push something unrelated
+		puts = append(puts, put("configuration", "items", []item{{"f/c.yaml", "v1"}, {"q/qb.yaml", "q1"}}))
+		puts = append(puts, put("apply_flows", "items", []item{flow()}))
+		puts = append(puts, put("configuration", "items", small()))
+		if r.Chance(50) {
+			puts = append(puts, put("apply_flows", "items", small()))
+		}
+	case 2:
+		// rejected by validation, then valid pushes
+		puts = append(puts, put(prng.Pick(r, eps), "items", []item{flow(), {"f/" + prng.Pick(r, []string{"a", "b", "c"}) + ".yaml", "bad"}}))
+		puts = append(puts, put(prng.Pick(r, eps), "items", small()))
+		puts = append(puts, put(prng.Pick(r, eps), "items", []item{flow()}))
+	case 3:
+		// undecodable bodies in between
+		puts = append(puts, put(prng.Pick(r, eps), "items", []item{flow(), {"g", "g1"}}))
+		puts = append(puts, put(prng.Pick(r, eps), prng.Pick(r, []string{"null", "badjson"}), nil))
+		puts = append(puts, put(prng.Pick(r, eps), "items", small()))
+		if r.Chance(50) {
+			puts = append(puts, put(prng.Pick(r, eps), "items", []item{flow()}))
+		}
+	default:
+		// random mix of 2..4 requests
+		n := r.Range(2, 4)
+		for i := 0; i < n; i++ {
+			puts = append(puts, put(prng.Pick(r, eps), "items", genPayload(r, t, r.Intn(nShapes))))
+		}
+	}
+	return puts
+}
+
+func flow2(r *prng.R) item {
+	return item{"q/qa.yaml", fmt.Sprintf("q%d", r.Range(1, 2))}
+}
+
 func gen(r *prng.R, f proto.Flags, emit func(proto.Case)) {
 	payloads := 90
 	if f.Tier == "thorough" {
@@ -207,6 +287,15 @@ func gen(r *prng.R, f proto.Flags, emit func(proto.Case)) {
 		}
 		id++
 		emit(proto.Case{ID: fmt.Sprintf("g%d", id), Ops: ops})
+	}
+	histories := 80
+	if f.Tier == "thorough" {
+		histories = 1500
+	}
+	for k := 0; k < histories*f.Budget; k++ {
+		rr := r.Fork()
+		t := genTree(rr)
+		one(t, genHistory(rr, t, k%5)...)
 	}
 	for k := 0; k < payloads; k++ {
 		rr := r.Fork()
